@@ -10,7 +10,7 @@ def has_soft_event(r):
 
 def run(tier, seed, limit=0):
     chk = engine.Check("C05", tier, seed)
-    scs = fam_soft.family_soft_abstract(tier, seed) + fam_soft.family_soft_struct(tier, seed)
+    scs = fam_soft.family_soft_abstract(tier, seed) + fam_soft.family_soft_struct(tier, seed) + fam_soft.family_soft_merge(tier, seed)
     if limit:
         scs = scs[:limit]
     chk.run_scenarios(scs, "Trace_VscRand")
